@@ -221,7 +221,7 @@ def caches_follow_setters(ctx, chk, ci):
     them: a functools cache (cached_property / lru_cache / cache) on a method in the MRO whose body reads - directly or through other methods and
     properties of the class - an attribute that a setter re-binds would keep answering for the old scores."""
     import ast
-    from .c10 import rebindable_attrs
+    from .c10 import rebindable_attrs, attr_writers, invalidates
     rb = rebindable_attrs(ctx.db, ci)
     mro = [c for c in ci.mro() if hasattr(c, "methods")]
 
@@ -253,6 +253,9 @@ def caches_follow_setters(ctx, chk, ci):
             n_cached += 1
             stale = sorted(a for a in reads(fi) if a in rb)
             inst = "cache:%s.%s" % (c.qualname.split(".")[-1], name)
+            # a cache that every writer of the attributes it depends on drops again is coherent
+            writers = attr_writers(ctx.db, ci)
+            stale = [a for a in stale if not all(invalidates(w.node, name) for w in writers.get(a, []))]
             if stale:
                 chk.violation("R19.8", fi.qualname, inst, "@%s result depends on self.%s, which %s re-binds after construction" % (sorted(hit)[0], stale[0], rb[stale[0]]),
                               "results of the inherited API follow the scores currently attached through the aliases (no per-object cache over re-bindable state)",
